@@ -57,7 +57,12 @@ def gen_plan(rng, tier):
     down = None
     if n > 1 and rng.random() < 0.3:
         down = {'node': rng.randrange(n), 'how': rng.choice(['refuse', 'blackhole'])}
-    return {'cluster': {'nodes': nodes}, 'contact': list(range(n)),
+    mute = None
+    if n > 1 and down is None and rng.random() < 0.25:
+        # a node that completes the handshake (so its version is settled on) and then never answers the control connection's
+        # queries: the driver moves on to the next contact point with whatever version it had come down to
+        mute = rng.randrange(n)
+    return {'cluster': {'nodes': nodes}, 'contact': list(range(n)), 'mute': mute,
             'explicit': rng.choice([None, None, None, 1, 2, 3, 4, 5, 6, 65, 66]),
             'allow_beta': rng.random() < 0.3, 'down': down, 'strategy': gen_strategy(rng), 'time_jump_p': 0,
             'line_p': rng.choice([0, 0, 0.02, 0.1]), 'points': rng.choice([0, 2, 4])}
@@ -66,6 +71,9 @@ def gen_plan(rng, tier):
 def run_plan(plan, seed, choices=None):
     w = FullWorld(plan, seed, choices, horizon=120.0, step_cap=200000)     # a negotiation that never ends runs into the step cap
     sim, fc = w.sim, w.fc
+    if plan.get('mute') is not None:
+        fc.sys_drops.append((plan['mute'], 'system'))
+        sim.probe('node_mute_after_handshake')
     if plan.get('down'):
         nd = fc.nodes[plan['down']['node']]
         nd.up = False
@@ -151,7 +159,9 @@ def run_plan(plan, seed, choices=None):
             if f[3] == 1 and 1 not in nd.versions and k + 1 < len(mine) and explicit is None:
                 V.add('C41/terminates', 'attempt-after-lowest-rejected', 'node %d rejected version 1 and was tried again with %r' % (i, [x[3] for x in mine[k + 1:]][:5]))
                 break
-    if not ok and explicit is None:
+    if not ok and explicit is None and plan.get('mute') is None:
+        # (a node that settled on a low version and then went mute pins that version for the hosts tried after it: "never steps up"
+        # then legitimately ends in giving up)
         # implicit version: a reachable node that speaks a version the driver supports must end up being used
         V.check('C41/downgrades')
         reachable = [i for i, nd in enumerate(plan['cluster']['nodes']) if not (plan.get('down') and plan['down']['node'] == i)]
@@ -167,7 +177,10 @@ def run_plan(plan, seed, choices=None):
     if ok:
         V.check('C41/agreed')
         agreed = st['outcome'][1]
-        ctrl_nodes = [nd for nd in fc.nodes if any(nc.events for nc in nd.conns)]
+        # (the node of the control connection that lasted: the most recently accepted connection that registered for events - a node
+        # that went mute after the handshake had one too)
+        with_ev = sorted([(nc.accepted_seq, nd.idx) for nd in fc.nodes for nc in nd.conns if nc.events])
+        ctrl_nodes = [fc.nodes[with_ev[-1][1]]] if with_ev else []
         if ctrl_nodes and agreed not in ctrl_nodes[-1].versions and not (agreed in ctrl_nodes[-1].beta_versions and plan['allow_beta']):
             V.add('C41/agreed', 'agreed-version-unsupported', 'negotiated version %s but the control node supports %r' % (agreed, sorted(ctrl_nodes[-1].versions)))
     if rejected:
